@@ -367,6 +367,7 @@ theorem wsFlushLoop_conserves : ∀ (fuel : Nat) (w : WsWriter) (plan : List Soc
           simp only [owedMsgs, List.append_assoc]
           rw [takeBytes_conserves]
         | block => exact ⟨rfl, hp, by intro h; cases h⟩
+        | interrupt => exact ⟨rfl, hp, by intro h; cases h⟩
         | fail => exact ⟨rfl, hp, by intro h; cases h⟩
 
 /-- **`write` consumes the whole buffer exactly once**: unless the socket fails, the caller is told `buf.length` and the
